@@ -63,6 +63,9 @@ impl VariableAccess {
 enum Component {
     LessThan,
     Num2Bits { bit_size: Box<Expression> },
+    /// The component is instantiated in more than one way (for example with a different
+    /// number of bits in each branch of a conditional statement).
+    Unknown,
 }
 
 impl Component {
@@ -72,6 +75,37 @@ impl Component {
 
     fn num_2_bits(bit_size: &Expression) -> Self {
         Self::Num2Bits { bit_size: Box::new(bit_size.clone()) }
+    }
+
+    /// Returns true if the two instantiations are the same.
+    fn same_as(&self, other: &Component) -> bool {
+        match (self, other) {
+            (Self::LessThan, Self::LessThan) => true,
+            (Self::Num2Bits { bit_size }, Self::Num2Bits { bit_size: other_size }) => {
+                bit_size == other_size
+            }
+            _ => false,
+        }
+    }
+}
+
+/// Records the instantiation of the component. A component which is instantiated in different
+/// ways is not tracked (its inputs are not known to be range checked).
+fn add_component(
+    components: &mut HashMap<VariableAccess, Component>,
+    access: VariableAccess,
+    component: Component,
+) {
+    use std::collections::hash_map::Entry;
+    match components.entry(access) {
+        Entry::Vacant(entry) => {
+            entry.insert(component);
+        }
+        Entry::Occupied(mut entry) => {
+            if !entry.get().same_as(&component) {
+                entry.insert(Component::Unknown);
+            }
+        }
     }
 }
 
@@ -197,7 +231,7 @@ fn update_components(stmt: &Statement, components: &mut HashMap<VariableAccess, 
                     vec_to_display(&access, "")
                 );
                 let component = VariableAccess::new(var, &access);
-                components.insert(component, Component::less_than());
+                add_component(components, component, Component::less_than());
             } else if component_name == "Num2Bits" && args.len() == 1 {
                 // We assume this is the `Num2Bits` circuit from Circomlib.
                 trace!(
@@ -205,7 +239,7 @@ fn update_components(stmt: &Statement, components: &mut HashMap<VariableAccess, 
                     vec_to_display(&access, "")
                 );
                 let component = VariableAccess::new(var, &access);
-                components.insert(component, Component::num_2_bits(&args[0]));
+                add_component(components, component, Component::num_2_bits(&args[0]));
             }
         }
     }
